@@ -1,8 +1,141 @@
 package main
 
-// runSelfTests applies in-memory source edits (packages.Config.Overlay; /repo is never touched)
-// that break one rule instance each, and requires the rule to report it. Seeds validate the
-// checker, never the verdict on /repo.
+import (
+	"fmt"
+	"os"
+	"path/filepath"
+	"strings"
+)
+
+// Self-test seeds (thorough tier, DESIGN §5): in-memory source edits (packages.Config.Overlay;
+// /repo is never touched) that break exactly one rule instance each. The rule must report a
+// finding whose key contains `expect`. A seed whose `old` text no longer occurs is reported as
+// skipped; a seed that applies but is not detected means the checker lost its teeth and fails the
+// check. Seeds validate the checker, never the verdict on /repo.
+type seed struct {
+	name   string
+	rule   string
+	file   string
+	old    string
+	new    string
+	expect string
+}
+
+var seeds = []seed{
+	{"ixorBitmap delegates to the operand's in-place ixor", "A1.kernel", "arraycontainer.go", "\treturn value2.xor(ac)\n", "\treturn value2.ixor(ac)\n", "ixorBitmap"},
+	{"ixorBitmap returns the operand", "A6.kernel", "arraycontainer.go", "\treturn value2.xor(ac)\n", "\treturn value2.ixor(ac)\n", "(*roaring.arrayContainer).ixor"},
+	{"Remove bypasses the copy-before-write gate", "A2.32", "roaring.go", "c := rb.highlowcontainer.getWritableContainerAtIndex(i).iremoveReturnMinimized(lowbits(x))\n\t\trb.highlowcontainer.setContainerAtIndex(i, c)\n\t\tif rb.highlowcontainer.getContainerAtIndex(i).isEmpty() {\n\t\t\trb.highlowcontainer.removeAtIndex(i)\n\t\t}\n\t}\n}", "c := rb.highlowcontainer.getContainerAtIndex(i).iremoveReturnMinimized(lowbits(x))\n\t\trb.highlowcontainer.setContainerAtIndex(i, c)\n\t\tif rb.highlowcontainer.getContainerAtIndex(i).isEmpty() {\n\t\t\trb.highlowcontainer.removeAtIndex(i)\n\t\t}\n\t}\n}", "(*roaring.Bitmap).Remove"},
+	{"appendCopy forgets to clone on the non-COW path", "A3.32", "roaringarray.go", "sa.containers[startingindex].clone(), copyonwrite)", "sa.containers[startingindex], copyonwrite)", "appendCopy"},
+	{"64-bit Xor inserts the argument's bucket", "A3.64", "roaring64/roaring64.go", "c := x2.highlowcontainer.getContainerAtIndex(pos2).Clone()\n", "c := x2.highlowcontainer.getContainerAtIndex(pos2)\n", "(*roaring64.Bitmap).Xor"},
+	{"64-bit Remove bypasses the gate", "A2.64", "roaring64/roaring64.go", "\t\tc := rb.highlowcontainer.getWritableContainerAtIndex(i)\n\t\tc.Remove(lowbits(x))\n", "\t\tc := rb.highlowcontainer.getContainerAtIndex(i)\n\t\tc.Remove(lowbits(x))\n", "(*roaring64.Bitmap).Remove"},
+	{"And stores a possibly empty intersection", "F3.32", "roaring.go", "\t\t\t\t\tdiff := c1.iand(c2)\n\t\t\t\t\tif !diff.isEmpty() {\n", "\t\t\t\t\tdiff := c1.iand(c2)\n\t\t\t\t\t{\n", "(*roaring.Bitmap).And"},
+	{"64-bit Remove keeps an emptied bucket", "F3.64", "roaring64/roaring64.go", "\t\tc.Remove(lowbits(x))\n\t\tif c.IsEmpty() {\n\t\t\trb.highlowcontainer.removeAtIndex(i)\n\t\t}\n", "\t\tc.Remove(lowbits(x))\n", "(*roaring64.Bitmap).Remove"},
+	{"readFrom drops the SkipBytes error", "B1", "roaringarray.go", "\t\tif err := stream.SkipBytes(int(size) * 4); err != nil {\n\t\t\treturn stream.GetReadBytes(), fmt.Errorf(\"failed to skip bytes: %s\", err)\n\t\t}\n", "\t\tstream.SkipBytes(int(size) * 4)\n", "SkipBytes"},
+	{"MustReadFrom drops ReadFrom's results", "B4", "roaring.go", "\tp, err = rb.ReadFrom(reader, cookieHeader...)\n\tif err != nil {\n\t\treturn\n\t}\n", "\trb.ReadFrom(reader, cookieHeader...)\n", "MustReadFrom"},
+	{"bitmapContainer.and loses the run case", "F1", "bitmapcontainer.go", "\tcase *runContainer16:\n\t\tif x.isFull() {\n\t\t\treturn bc.clone()\n\t\t}\n\t\treturn x.andBitmapContainer(bc)\n\t}\n\tpanic(\"unsupported container type\")", "\t}\n\tpanic(\"unsupported container type\")", "(*roaring.bitmapContainer).and|"},
+	{"Ranges ignores the consumer's answer", "F7", "iter.go", "\t\t\t\t\tif !emit(hs+start, hs+end) {\n\t\t\t\t\t\treturn\n\t\t\t\t\t}\n", "\t\t\t\t\temit(hs+start, hs+end)\n", "Ranges"},
+	{"xorArray keeps a bitmap container of 4096 values", "F8.bitmap", "arraycontainer.go", "\t\tbc.computeCardinality()\n\t\tif bc.cardinality <= arrayDefaultMaxSize {\n\t\t\treturn bc.toArrayContainer()", "\t\tbc.computeCardinality()\n\t\tif bc.cardinality < arrayDefaultMaxSize {\n\t\t\treturn bc.toArrayContainer()", "xorArray"},
+	{"run union is returned un-minimised", "F8.run", "runcontainer.go", "\t\treturn rc.union(c).toEfficientContainer()\n", "\t\treturn rc.union(c)\n", "or result"},
+	{"run nextAbsentValue adds in 16 bits", "U1", "runcontainer.go", "\treturn int(rc.iv[whichIndex].last()) + 1\n", "\treturn int(rc.iv[whichIndex].last() + 1)\n", "nextAbsentValue"},
+	{"run validator loses the wrap bound", "V2", "runcontainer.go", "\t\tif int(outerInterval.start)+int(outerInterval.length) > MaxUint16 {\n\t\t\treturn ErrRunIntervalOverlap\n\t\t}\n", "", "no wrap"},
+	{"table validator stops comparing lengths", "V1", "roaringarray.go", "\tif len(ra.keys) != len(ra.containers) {\n\t\treturn ErrCardinalityConstraint\n\t}\n", "", "len(keys) == len(containers)"},
+	{"ReadUInt16 checks only for an empty buffer", "B5", "internal/byte_input.go", "\tif len(b.buf)-b.off < 2 {\n", "\tif b.off >= len(b.buf) {\n", "ReadUInt16"},
+	{"readFrom accepts any container count", "T1", "roaringarray.go", "\tif size > (1 << 16) {\n\t\treturn stream.GetReadBytes(), fmt.Errorf(\"it is logically impossible to have more than (1<<16) containers\")\n\t}\n", "", "readFrom"},
+	{"noOffsetThreshold changed", "L1", "util.go", "noOffsetThreshold          = 4", "noOffsetThreshold          = 5", "noOffsetThreshold"},
+	{"writer omits offsets for exactly 4 containers", "L2", "roaringarray.go", "if !hasRun || (len(ra.keys) >= noOffsetThreshold) {", "if !hasRun || (len(ra.keys) > noOffsetThreshold) {", "writeTo"},
+	{"run payload size mispredicted", "L5", "runcontainer.go", "\treturn 2 + len(rc.iv)*4\n", "\treturn 4 + len(rc.iv)*4\n", "payload run"},
+	{"FreezeTo writes a wrong type code", "L4", "serialization_littleendian.go", "\t\t\ttypes[i] = 2\n", "\t\t\ttypes[i] = 4\n", "array code"},
+	{"run count written big-endian", "L6", "serialization.go", "binary.LittleEndian.PutUint16(buf[0:], uint16(len(b.iv)))", "binary.BigEndian.PutUint16(buf[0:], uint16(len(b.iv)))", "writeTo"},
+	{"bound uses 6 bytes of header per chunk", "L7", "roaring.go", "headermax := 8*contnbr + 4", "headermax := 6*contnbr + 4", "BoundSerializedSizeInBytes"},
+	{"zero-copy payloads stored with a false flag", "A4", "roaringarray.go", "\t\tra.needCopyOnWrite[i] = willNeedCopyOnWrite\n", "\t\tra.needCopyOnWrite[i] = willNeedCopyOnWrite && ra.copyOnWrite\n", "readFrom|payload"},
+	{"detach keeps the shared container", "A5", "roaringarray.go", "\t\t\tra.containers[i] = ra.containers[i].clone()\n\t\t\tra.needCopyOnWrite[i] = false\n", "\t\t\tra.needCopyOnWrite[i] = false\n", "cloneCopyOnWriteContainers"},
+	{"HeapOr loses its singleton guard", "F9", "fastaggregation.go", "\t} else if len(bitmaps) == 1 {\n\t\treturn bitmaps[0].Clone()\n\t}\n\t// TODO:  for better speed", "\t}\n\t// TODO:  for better speed", "HeapOr"},
+	{"in-place Xor loses the self-application guard", "F10", "roaring.go", "func (rb *Bitmap) Xor(x2 *Bitmap) {\n\tif rb == x2 {\n\t\trb.Clear()\n\t\treturn\n\t}\n", "func (rb *Bitmap) Xor(x2 *Bitmap) {\n", "(*roaring.Bitmap).Xor"},
+	{"static 64-bit Flip inserts at the input's index", "F5", "roaring64/roaring64.go", "\t\t\tc.Flip(containerStart, containerLast)\n\t\t\tif !c.IsEmpty() {\n\t\t\t\tanswer.highlowcontainer.insertNewKeyValueAt(-j-1, uint32(hb), c)", "\t\t\tc.Flip(containerStart, containerLast)\n\t\t\tif !c.IsEmpty() {\n\t\t\t\tanswer.highlowcontainer.insertNewKeyValueAt(-i-1, uint32(hb), c)", "roaring64.Flip"},
+	{"lazyIOR forgets to invalidate the cardinality", "F2", "bitmapcontainer.go", "\t\tbc.cardinality = invalidCardinality\n\t\treturn bc\n\t}\n\tpanic(\"unsupported container type\")\n}\n\nfunc (bc *bitmapContainer) lazyOR(", "\t\treturn bc\n\t}\n\tpanic(\"unsupported container type\")\n}\n\nfunc (bc *bitmapContainer) lazyOR(", "lazyIOR"},
+	{"ParAnd forgets to close its input channel", "P4", "parallel.go", "\tbitmap := <-bitmapChan\n\n\tclose(inputChan)\n\tclose(resultChan)\n\tclose(expectedKeysChan)\n\n\treturn bitmap\n}\n\n// ParOr", "\tbitmap := <-bitmapChan\n\n\tclose(resultChan)\n\tclose(expectedKeysChan)\n\n\treturn bitmap\n}\n\n// ParOr", "ParAnd"},
+	{"FromBuffer never returns its pooled reader", "PT", "roaring.go", "\tinternal.ByteBufferPool.Put(stream)\n", "", "FromBuffer"},
+	{"compareValue worker never signals Done", "P1", "roaring64/bsi64.go", "func compareValue(e *task, batch []uint64, resultsChan chan *Bitmap, wg *sync.WaitGroup) {\n\n\tdefer wg.Done()\n", "func compareValue(e *task, batch []uint64, resultsChan chan *Bitmap, wg *sync.WaitGroup) {\n\n\t_ = wg\n", "parallelExecutor"},
+	{"ParOr closes a channel twice", "P3", "parallel.go", "\tclose(chunkChan)\n\tclose(chunkSpecChan)\n", "\tclose(chunkChan)\n\tclose(chunkChan)\n\tclose(chunkSpecChan)\n", "roaring.ParOr"},
+	{"NewBSIRetainSet skips the sign plane", "PC1", "roaring64/bsi64.go", "\tfor i := 0; i <= b.BitCount(); i++ {\n\t\twg.Add(1)\n\t\tgo func(j int) {\n\t\t\tdefer wg.Done()\n\t\t\tnewBSI.bA[j]", "\tfor i := 0; i < b.BitCount(); i++ {\n\t\twg.Add(1)\n\t\tgo func(j int) {\n\t\t\tdefer wg.Done()\n\t\t\tnewBSI.bA[j]", "NewBSIRetainSet"},
+	{"static Or appends into its first operand", "A1.api32", "roaring.go", "\t\t\t\tanswer.highlowcontainer.appendContainer(s1, x1.highlowcontainer.getContainerAtIndex(pos1).or(x2.highlowcontainer.getContainerAtIndex(pos2)), false)", "\t\t\t\tx1.highlowcontainer.appendContainer(s1, x1.highlowcontainer.getContainerAtIndex(pos1).or(x2.highlowcontainer.getContainerAtIndex(pos2)), false)", "roaring.Or"},
+	{"static 64-bit Or appends into its first operand", "A1.api64", "roaring64/roaring64.go", "\t\t\t\tanswer.highlowcontainer.appendContainer(s1,\n\t\t\t\t\troaring.Or(x1.highlowcontainer.getContainerAtIndex(pos1), x2.highlowcontainer.getContainerAtIndex(pos2)), false)", "\t\t\t\tx1.highlowcontainer.appendContainer(s1,\n\t\t\t\t\troaring.Or(x1.highlowcontainer.getContainerAtIndex(pos1), x2.highlowcontainer.getContainerAtIndex(pos2)), false)", "roaring64.Or"},
+	{"ParOr compacts the caller's slice", "A1.slices", "parallel.go", "\tbitmapsFiltered := make([]*Bitmap, 0, len(bitmaps))\n", "\tbitmapsFiltered := bitmaps[:0]\n", "roaring.ParOr"},
+	{"matchTrie returns the caller's prefix", "A1.bsi", "BitSliceIndexing/bsi.go", "\t\tif owned {\n\t\t\treturn prefix\n\t\t}\n\t\treturn prefix.Clone()\n", "\t\treturn prefix\n", "BatchEqual"},
+	{"NewBSIRetainSet copies plane headers", "A7", "roaring64/bsi64.go", "\t\t\tnewBSI.bA[j] = *b.bA[j].Clone()\n", "\t\t\tnewBSI.bA[j] = b.bA[j]\n", "NewBSIRetainSet"},
+	{"writeTo forgets a payload count", "B2", "roaringarray.go", "\t\twritten, err := c.writeTo(w)\n\t\tif err != nil {\n\t\t\treturn n, err\n\t\t}\n\t\tn += int64(written)\n", "\t\t_, err := c.writeTo(w)\n\t\tif err != nil {\n\t\t\treturn n, err\n\t\t}\n", "(roaring.container).writeTo"},
+	{"FreezeTo writes before checking the size", "B3", "serialization_littleendian.go", "\tif len(buf) < serialSize {\n\t\treturn 0, ErrFrozenBitmapBufferTooSmall\n\t}\n", "", "FreezeTo"},
+}
+
 func runSelfTests(prop string, spec *PropSpec) (log []string, findings []Finding) {
-	return nil, nil
+	inSpec := map[string]bool{}
+	for _, r := range spec.Rules {
+		inSpec[r] = true
+	}
+	tested := map[string]bool{}
+	for _, sd := range seeds {
+		if !inSpec[sd.rule] {
+			continue
+		}
+		tested[sd.rule] = true
+		path := filepath.Join(repoDir(), sd.file)
+		src, err := os.ReadFile(path)
+		if err != nil {
+			log = append(log, fmt.Sprintf("seed %q (%s): SKIPPED, cannot read %s", sd.name, sd.rule, sd.file))
+			continue
+		}
+		if strings.Count(string(src), sd.old) < 1 {
+			log = append(log, fmt.Sprintf("seed %q (%s): SKIPPED, its pattern no longer occurs in %s", sd.name, sd.rule, sd.file))
+			continue
+		}
+		mod := strings.Replace(string(src), sd.old, sd.new, 1)
+		p, err := Load(cfgAmd64, map[string][]byte{path: []byte(mod)})
+		if err != nil {
+			log = append(log, fmt.Sprintf("seed %q (%s): SKIPPED, the edited source does not type-check (%v)", sd.name, sd.rule, firstLine(err.Error())))
+			continue
+		}
+		fn := ruleTable[sd.rule]
+		if fn == nil {
+			continue
+		}
+		hit := ""
+		func() {
+			defer func() {
+				if r := recover(); r != nil {
+					hit = ""
+					findings = append(findings, Finding{Rule: "SELFTEST", Key: "SELFTEST|" + sd.rule + "|" + sd.name, Pos: sd.file, Msg: fmt.Sprintf("rule panicked on the seeded source: %v", r), Undecided: true})
+				}
+			}()
+			res := fn(p)
+			for _, f := range res.Findings {
+				if strings.Contains(f.Key, sd.expect) {
+					hit = f.Key
+				}
+			}
+		}()
+		if hit != "" {
+			log = append(log, fmt.Sprintf("seed %q (%s): DETECTED as %s", sd.name, sd.rule, hit))
+		} else {
+			log = append(log, fmt.Sprintf("seed %q (%s): NOT DETECTED", sd.name, sd.rule))
+			findings = append(findings, Finding{Rule: "SELFTEST", Key: "SELFTEST|" + sd.rule + "|" + sd.name, Pos: sd.file, Undecided: true,
+				Msg: fmt.Sprintf("checker self-test: the seeded edit %q of %s is not reported by rule %s (expected a finding containing %q); the rule has lost its teeth", sd.name, sd.file, sd.rule, sd.expect)})
+		}
+		tlCache = map[*Prog]map[string]*tlEngine{} // release the engines of the overlay program
+	}
+	for _, r := range spec.Rules {
+		if !tested[r] {
+			log = append(log, fmt.Sprintf("rule %s: no self-test seed", r))
+		}
+	}
+	return log, findings
+}
+
+func firstLine(s string) string {
+	if i := strings.IndexByte(s, '\n'); i >= 0 {
+		return s[:i]
+	}
+	if len(s) > 200 {
+		return s[:200]
+	}
+	return s
 }
